@@ -794,7 +794,11 @@ func doCheck(prop, tier string) int {
 		}
 		for i := 0; i < n; i++ {
 			rs := splitmix(uint64(seed)*0x9E3779B97F4A7C15 ^ hashStr(prop+"/"+it.Scenario+"/"+it.Stratum) ^ uint64(i)*0xD1B54A32D192ED03)
-			specs = append(specs, proto.RunSpec{Prop: prop, Scenario: it.Scenario, Stratum: it.Stratum, Seed: rs >> 1, Tier: tier})
+			st := it.Stratum
+			if it.Combos {
+				st = fmt.Sprintf("%s:%d", it.Stratum, i)
+			}
+			specs = append(specs, proto.RunSpec{Prop: prop, Scenario: it.Scenario, Stratum: st, Seed: rs >> 1, Tier: tier})
 		}
 	}
 	// interleave strata so that a wall-clock cap cuts all of them evenly
